@@ -11,6 +11,7 @@
 -/
 import DymVerif.Props.C14
 import DymVerif.Lemmas.LockupChain
+import DymVerif.Lemmas.LockupChainEmbed
 namespace DymVerif.C14
 open DymVerif DymVerif.Lockup
 
@@ -77,6 +78,20 @@ theorem restart_any_export_order {c : Chain} (h : CInv c) {l : List Lock} (hp : 
   refine ⟨storeLocks_perm h.sorted hp, fun d k => ?_⟩
   rw [initializeAllLocks_acc, h.inv.accum d k]
   exact congrArg Int.ofNat (total_perm _ hp)
+
+/-- **this restart is C18's `importLockup ∘ exportLockup`** (Model/Genesis, Props/C18Modules): for every
+    state, C18's genesis round trip of the encoded state (`embState`, any params code) yields the
+    encoded lock section and the last id of `restart`, and the default params — the two models of
+    x/lockup's ExportGenesis / InitGenesis are the same functions on what both represent -/
+theorem restart_is_c18_import_export (params : Nat) (c : Chain) :
+    (Genesis.importLockup (Genesis.exportLockup (embState params c.s))).lastLockId = (restart c).s.lastId ∧
+    Genesis.exportVals (Genesis.importLockup (Genesis.exportLockup (embState params c.s))).locks =
+      (restart c).s.locks.map embLock ∧
+    (Genesis.importLockup (Genesis.exportLockup (embState params c.s))).params = Genesis.lockupDefaultParams := by
+  have h2 := (embed_export params c.s).2
+  simp only [Genesis.exportLockup] at h2 ⊢
+  rw [h2]
+  exact embed_import (exportGenesis c.s)
 
 /-- the module writes `DefaultParams()` at import: minimum duration 0, the default creation fee, an
     empty force-unlock allow-list -/
